@@ -15,6 +15,10 @@
 (*   closed     result channels closed by the cleanup goroutine on done    *)
 (*   push.sel   the handler's send is a select with DoneChan               *)
 (*   push.buf   the channel is buffered (the send cannot block)            *)
+(*   conn.waits            Connection.shutdown waits for the forwarders    *)
+(*                         before it closes ErrorChan                      *)
+(*   engine.startfail_done Protocol.Start closes DoneChan when it cannot   *)
+(*                         register with the muxer                         *)
 (*                                                                         *)
 (* Goroutines (one action group each, weak fairness on every one):         *)
 (*   caller     Lock -> enqueue request -> wait on the stage's channels    *)
@@ -29,6 +33,11 @@
 (*   closer     closes DoneChan after recvLoop AND sendLoop have exited    *)
 (*   cleanup    on DoneChan closes the result channels (if the client has  *)
 (*              one); watcher: releases a held busy lock on DoneChan       *)
+(*   restart    a handler that stops the instance and starts a new one     *)
+(*              (tx-submission server on Done): if the muxer is already    *)
+(*              down, Protocol.Start registers nothing and starts nothing; *)
+(*              unless it closes DoneChan itself the new instance's        *)
+(*              cleanup goroutine waits for ever ("stillborn")             *)
 (*   connection the two error forwarders, the shutdown goroutine           *)
 (*              (muxer.Stop, close connClosedChan, waitGroup.Wait, close   *)
 (*              ErrorChan), Close()                                        *)
@@ -127,7 +136,9 @@ VARIABLES c,                 \* the case
           perr, merr,        \* error waiting in protoErrorChan / muxer ErrorChan
           fP, fM, sh,        \* forwarders ("wait", "send", "closing", "exit"); shutdown goroutine ("wait", "wg", "exit")
           closeSig, connClosed, errClosed, unsafeClose,
-          uc, drain          \* user: Close() "no" / "in" / "ret"; drains ErrorChan
+          uc, drain,         \* user: Close() "no" / "in" / "ret"; drains ErrorChan
+          inst2              \* the instance a handler restarts the protocol with (tx-submission Done): "none", "running",
+                             \* "stillborn" (Protocol.Start could not register: nothing runs, DoneChan never closes), "gone"
 
 callV  == <<cpc, ck, rv>>
 protoV == <<ps, ag, sent>>
@@ -135,7 +146,7 @@ peerV  == <<pi, pk, eof, last>>
 handV  == <<hk, hj, hi>>
 connV  == <<perr, merr, fP, fM, sh, closeSig, connClosed, errClosed, unsafeClose>>
 userV  == <<uc, drain, c2>>
-vars == <<c, callV, mtx, g, protoV, peerV, inbox, bad, handV, buf, stopped, mux, done, cleaned, connV, userV>>
+vars == <<c, callV, mtx, g, protoV, peerV, inbox, bad, handV, buf, stopped, mux, done, cleaned, connV, userV, inst2>>
 
 A == Table.apis[c.a]
 N == NStages(A)
@@ -172,7 +183,7 @@ Init ==
     /\ done = FALSE /\ cleaned = FALSE /\ perr = FALSE /\ merr = FALSE
     /\ fP = "wait" /\ fM = "wait" /\ sh = "wait"
     /\ closeSig = FALSE /\ connClosed = FALSE /\ errClosed = FALSE /\ unsafeClose = FALSE
-    /\ uc = "no" /\ drain = FALSE
+    /\ uc = "no" /\ drain = FALSE /\ inst2 = "none"
 
 --------------------------------------------------------------------------
 (* call 1 *)
@@ -206,7 +217,7 @@ C1Lock ==
     /\ cpc = "lock"
     /\ IF A.mutex THEN mtx = 0 /\ mtx' = 1 ELSE UNCHANGED mtx
     /\ cpc' = "send"
-    /\ UNCHANGED <<c, ck, rv, g, protoV, peerV, inbox, bad, handV, buf, stopped, mux, done, cleaned, connV, userV>>
+    /\ UNCHANGED <<inst2, c, ck, rv, g, protoV, peerV, inbox, bad, handV, buf, stopped, mux, done, cleaned, connV, userV>>
 
 \* enqueueMessage: refused when a shutdown signal is visible; else queued, and put on the wire by sendLoop,
 \* which moves the protocol state to the stage's state (server agency)
@@ -217,7 +228,7 @@ C1Send ==
        ELSE /\ sent' = ck /\ ps' = ck /\ ag' = "srv"
             /\ IF cpc = "send" THEN cpc' = "wait" /\ UNCHANGED <<ck, rv, mtx, g>>
                ELSE Return("ok")
-    /\ UNCHANGED <<c, peerV, inbox, bad, handV, buf, stopped, mux, done, cleaned, connV, userV>>
+    /\ UNCHANGED <<inst2, c, peerV, inbox, bad, handV, buf, stopped, mux, done, cleaned, connV, userV>>
 
 \* rendezvous: the handler's current push is an unbuffered send on a channel the call is waiting on
 C1Rendezvous ==
@@ -226,7 +237,7 @@ C1Rendezvous ==
         /\ ~p.buf /\ p.ch \in SetOf(St(ck).wait)
         /\ hi' = hi + 1
         /\ React(p.eff)
-    /\ UNCHANGED <<c, protoV, peerV, inbox, bad, hk, hj, buf, stopped, mux, done, cleaned, connV, userV>>
+    /\ UNCHANGED <<inst2, c, protoV, peerV, inbox, bad, hk, hj, buf, stopped, mux, done, cleaned, connV, userV>>
 
 C1Buffered ==
     /\ cpc = "wait"
@@ -234,7 +245,7 @@ C1Buffered ==
         /\ buf[ch] # ""
         /\ buf' = [buf EXCEPT ![ch] = ""]
         /\ React(buf[ch])
-    /\ UNCHANGED <<c, protoV, peerV, inbox, bad, handV, stopped, mux, done, cleaned, connV, userV>>
+    /\ UNCHANGED <<inst2, c, protoV, peerV, inbox, bad, handV, stopped, mux, done, cleaned, connV, userV>>
 
 \* released by shutdown: a waited channel was closed by the cleanup goroutine, or the wait selects on DoneChan
 C1Released ==
@@ -242,7 +253,7 @@ C1Released ==
     /\ \/ cleaned /\ (SetOf(St(ck).wait) \cap Closed) # {}
        \/ done /\ StageDone(ck)
     /\ Return("err")
-    /\ UNCHANGED <<c, protoV, peerV, inbox, bad, handV, buf, stopped, mux, done, cleaned, connV, userV>>
+    /\ UNCHANGED <<inst2, c, protoV, peerV, inbox, bad, handV, buf, stopped, mux, done, cleaned, connV, userV>>
 
 Caller == C1Lock \/ C1Send \/ C1Rendezvous \/ C1Buffered \/ C1Released
 
@@ -272,7 +283,7 @@ RLTake ==
                     THEN ps' = ps + 1 /\ ag' = "srv"
                     ELSE ag' = "cli" /\ UNCHANGED ps
     /\ ConnRest
-    /\ UNCHANGED <<c, callV, mtx, g, peerV, bad, buf, mux, done, cleaned, userV>>
+    /\ UNCHANGED <<inst2, c, callV, mtx, g, peerV, bad, buf, mux, done, cleaned, userV>>
 
 \* a buffered push completes at once
 HPushBuf ==
@@ -280,29 +291,44 @@ HPushBuf ==
     /\ Rep(hk, hj).push[hi].buf
     /\ buf' = [buf EXCEPT ![Rep(hk, hj).push[hi].ch] = Rep(hk, hj).push[hi].eff]
     /\ hi' = hi + 1
-    /\ UNCHANGED <<c, callV, mtx, g, protoV, peerV, inbox, bad, hk, hj, stopped, mux, done, cleaned, connV, userV>>
+    /\ UNCHANGED <<inst2, c, callV, mtx, g, protoV, peerV, inbox, bad, hk, hj, stopped, mux, done, cleaned, connV, userV>>
 
 \* select { case ch <- v: case <-DoneChan() }: the second case (never enabled: done => recvLoop exited => no handler)
 HPushDone ==
     /\ hk # 0 /\ hi <= Len(Rep(hk, hj).push)
     /\ Rep(hk, hj).push[hi].sel /\ done
     /\ hi' = hi + 1
-    /\ UNCHANGED <<c, callV, mtx, g, protoV, peerV, inbox, bad, hk, hj, buf, stopped, mux, done, cleaned, connV, userV>>
+    /\ UNCHANGED <<inst2, c, callV, mtx, g, protoV, peerV, inbox, bad, hk, hj, buf, stopped, mux, done, cleaned, connV, userV>>
 
+\* the handler returns.  A reply marked restart (tx-submission Done) stops this instance and starts a new one from
+\* inside the handler: Protocol.Start registers with the muxer, and if the muxer is already shutting down it reports an
+\* error and returns without starting anything - then nothing will ever close the new instance's DoneChan, unless
+\* Start does so itself (Table.engine.startfail_done, read off protocol.go)
 HReturn ==
     /\ hk # 0 /\ hi > Len(Rep(hk, hj).push)
     /\ hk' = 0 /\ hj' = 0 /\ hi' = 0
     /\ IF Rep(hk, hj).unlock /\ mtx = 3 THEN mtx' = 0 ELSE UNCHANGED mtx
-    /\ UNCHANGED <<c, callV, g, protoV, peerV, inbox, bad, buf, stopped, mux, done, cleaned, connV, userV>>
+    /\ IF Rep(hk, hj).restart
+       THEN /\ stopped' = TRUE
+            /\ inst2' = IF mux = "up" THEN "running"
+                         ELSE IF Repaired \/ Table.engine.startfail_done THEN "gone" ELSE "stillborn"
+       ELSE UNCHANGED <<stopped, inst2>>
+    /\ UNCHANGED <<c, callV, g, protoV, peerV, inbox, bad, buf, mux, done, cleaned, connV, userV>>
+
+\* the restarted instance lives until the muxer goes down (its loops, closer and cleanup exit like the first one's)
+Inst2Exit ==
+    /\ inst2 = "running" /\ mux = "down"
+    /\ inst2' = "gone"
+    /\ UNCHANGED <<c, callV, mtx, g, protoV, peerV, inbox, bad, handV, buf, stopped, mux, done, cleaned, connV, userV>>
 
 \* readLoop: malformed bytes are a decode error whoever has agency
 RDError ==
     /\ bad /\ ReadAlive
     /\ bad' = FALSE /\ RaiseError /\ ConnRest
-    /\ UNCHANGED <<c, callV, mtx, g, protoV, peerV, inbox, handV, buf, mux, done, cleaned, userV>>
+    /\ UNCHANGED <<inst2, c, callV, mtx, g, protoV, peerV, inbox, handV, buf, mux, done, cleaned, userV>>
 
 Exit(n) == g' = [g EXCEPT ![n] = FALSE]
-EngineFrame == UNCHANGED <<c, callV, protoV, peerV, inbox, bad, handV, buf, stopped, mux, connV, userV>>
+EngineFrame == UNCHANGED <<inst2, c, callV, protoV, peerV, inbox, bad, handV, buf, stopped, mux, connV, userV>>
 
 \* recvLoop leaves its loop only between two messages: never while its handler runs
 RLExit == g["recv"] /\ hk = 0 /\ (stopped \/ mux = "down" \/ ~g["send"]) /\ Exit("recv") /\ UNCHANGED <<mtx, done, cleaned>> /\ EngineFrame
@@ -313,12 +339,12 @@ Watcher == g["watcher"] /\ (done \/ mtx # 3) /\ Exit("watcher") /\ mtx' = (IF mt
            /\ UNCHANGED <<done, cleaned>> /\ EngineFrame
 
 RecvLoop == RLTake \/ HPushBuf \/ HPushDone \/ HReturn \/ RLExit
-Engine == RecvLoop \/ RDError \/ SLExit \/ Closer \/ Cleanup \/ Watcher
+Engine == RecvLoop \/ RDError \/ SLExit \/ Closer \/ Cleanup \/ Watcher \/ Inst2Exit
 
 --------------------------------------------------------------------------
 (* the connection *)
 
-ConnFrame == UNCHANGED <<c, callV, mtx, g, protoV, peerV, inbox, bad, handV, buf, stopped, done, cleaned, userV>>
+ConnFrame == UNCHANGED <<inst2, c, callV, mtx, g, protoV, peerV, inbox, bad, handV, buf, stopped, done, cleaned, userV>>
 
 \* muxer.readLoop meets EOF / a segment it rejects: sendError, Stop
 MuxEof ==
@@ -380,13 +406,13 @@ Peer ==
        \/ /\ x = "stall" /\ UNCHANGED <<inbox, pk, bad, eof, last>>
        \/ /\ x \in {"close", "muxerr"} /\ eof' = TRUE /\ UNCHANGED <<inbox, pk, bad, last>>
     /\ pi' = pi + 1
-    /\ UNCHANGED <<c, callV, mtx, g, protoV, handV, buf, stopped, mux, done, cleaned, connV, userV>>
+    /\ UNCHANGED <<inst2, c, callV, mtx, g, protoV, handV, buf, stopped, mux, done, cleaned, connV, userV>>
 
 --------------------------------------------------------------------------
 (* the user of the connection *)
 
 PeerDone == pi > Len(S)
-UserFrame == UNCHANGED <<c, callV, g, protoV, peerV, inbox, bad, handV, buf, stopped, mux, done, cleaned,
+UserFrame == UNCHANGED <<inst2, c, callV, g, protoV, peerV, inbox, bad, handV, buf, stopped, mux, done, cleaned,
                          perr, merr, fP, fM, sh, connClosed, errClosed, unsafeClose>>
 
 \* Close() once the script is played and the call has returned or nothing moves in the library any more
@@ -414,7 +440,7 @@ Spec == Init /\ [][Next]_vars
         /\ WF_vars(Caller) /\ WF_vars(Peer) /\ WF_vars(User)
         /\ WF_vars(RecvLoop)                        \* recvLoop and the handler inside it
         /\ WF_vars(SLExit) /\ WF_vars(RDError)
-        /\ WF_vars(Closer) /\ WF_vars(Cleanup) /\ WF_vars(Watcher)
+        /\ WF_vars(Closer) /\ WF_vars(Cleanup) /\ WF_vars(Watcher) /\ WF_vars(Inst2Exit)
         /\ WF_vars(MuxEof) /\ WF_vars(FwdP) /\ WF_vars(FwdM) /\ WF_vars(Shutdown)
 
 --------------------------------------------------------------------------
@@ -428,7 +454,7 @@ TypeOK ==
     /\ hk \in 0..N /\ (hk # 0 => hj \in RepIdx(hk))
     /\ mux \in {"up", "down"} /\ uc \in {"no", "in", "ret"}
     /\ fP \in {"wait", "send", "closing", "exit"} /\ fM \in {"wait", "send", "closing", "exit"}
-    /\ sh \in {"wait", "wg", "exit"}
+    /\ sh \in {"wait", "wg", "exit"} /\ inst2 \in {"none", "running", "stillborn", "gone"}
 
 \* the fact the whole property hangs on: DoneChan is never closed while a handler runs
 DoneAfterHandler == done => (hk = 0 /\ ~g["recv"] /\ ~g["send"])
@@ -444,6 +470,8 @@ CloseCalled == uc # "no"
 CloseReturned == uc = "ret"
 Alive == {n \in GNames : g[n]} \cup (IF ReadAlive THEN {"read"} ELSE {}) \cup (IF StateAlive THEN {"state"} ELSE {}) \cup (IF fP # "exit" THEN {"fwdProto"} ELSE {}) \cup (IF fM # "exit" THEN {"fwdMuxer"} ELSE {})
                \cup (IF sh # "exit" THEN {"shutdown"} ELSE {})
+               \cup (IF inst2 = "running" THEN {"recv", "send", "read", "state", "closer", "cleanup"} ELSE {})
+               \cup (IF inst2 = "stillborn" THEN {"cleanup"} ELSE {})
 NoGoroutines == Alive = {}
 
 Terminal == ~ENABLED Next
